@@ -11,9 +11,10 @@ cd $WT
 git apply $D/patch.diff || { echo "RESULT patch-does-not-apply"; exit 1; }
 (go build ./... && cd integration_tests && go build ./...) || { echo "RESULT build-fails"; exit 1; }
 cp $D/demo_test.go $PKG/zz_seed_demo_test.go
-go test -count=1 -run "$RUN" ./$PKG/ > /tmp/cf-with.txt 2>&1; W=$?
+runtest() { if [[ $PKG == integration_tests* ]]; then (cd integration_tests && go test -mod=mod -count=1 -run "$RUN" ./${PKG#integration_tests}/ ); else go test -count=1 -run "$RUN" ./$PKG/; fi; }
+runtest > /tmp/cf-with.txt 2>&1; W=$?
 git apply -R $D/patch.diff
-go test -count=1 -run "$RUN" ./$PKG/ > /tmp/cf-without.txt 2>&1; WO=$?
+runtest > /tmp/cf-without.txt 2>&1; WO=$?
 git apply $D/patch.diff
 rm $PKG/zz_seed_demo_test.go
 echo "demo with change exit=$W (want !=0), without exit=$WO (want 0)"
